@@ -247,7 +247,9 @@ Definition set_clip (st : cstate) : cstate :=
 Definition guard_check (m : defmode) : bool :=
   match m with MClip => G_CLIP_CHECK | MMask => G_MASK_CHECK | MFilter => G_FILTER_CHECK
              | MPattern => G_PATTERN_CHECK | MMarker => G_MARKER_CHECK end.
+(* G_STATE_ROOTS: no State literal / reset outside convert_doc and resolve_svg_size, so whatever was pushed stays pushed *)
 Definition guard_push (m : defmode) : bool :=
+  G_STATE_ROOTS &&
   match m with MClip => G_CLIP_PUSH | MMask => G_MASK_PUSH | MFilter => G_FILTER_PUSH
              | MPattern => G_PATTERN_PUSH | MMarker => G_MARKER_PUSH end.
 
